@@ -21,7 +21,7 @@ func init() {
 		Run:      runC20,
 		Explanation: "Decides, from source: (R1) the accepted tenant-id alphabet exactly: the contents of validTenantIdChars are computed by constant-folding the init() loops and must be a subset of the documented safe set and contain none of the tenant-list separator, the metadata separators, path separators, NUL, space, control or high bytes; MaxTenantIDLength = 150; " +
 			"(R2) ValidTenantID accepts ⇔ every byte of the string is in the table (byte-indexed loop over 0..len) ∧ len ≤ max ∧ not '.'/'..' (8-row table after the loop); (R3) every successful return of the resolver entry points returns a value on which ValidTenantID returned nil on that path, metadata trimmed before validation and comparison in both resolvers, the multi-tenant result normalised after trimming; " +
-			"(R5) transport: HTTP get/set use the same header constant, the gRPC key is its lower-casing, inject/extract use the same context key, values are forwarded unchanged (identity flow); (R6) no default tenant: the next handler/invoker is reachable only when extraction/injection returned no error, injection into the context only for a non-empty single value. R6 also requires every extractor to have no reachable success return when the identifier is absent, whatever else it tests. NOT decided: net/http header canonicalisation and gRPC metadata semantics (trusted libraries).",
+			"(R5) transport: HTTP get/set use the same header constant, the gRPC key is its lower-casing, inject/extract use the same context key, values are forwarded unchanged (identity flow); (R6) no default tenant: the next handler/invoker is reachable only when extraction/injection returned no error, injection into the context only for a non-empty single value. R6 also requires every extractor to have no reachable success return when the identifier is absent, whatever else it tests. Also: (R7) one resolution path: identifiers are validated only inside the three analysed resolvers, and every other entry point answers with a resolver's result unchanged. NOT decided: net/http header canonicalisation and gRPC metadata semantics (trusted libraries).",
 	}
 }
 
